@@ -756,7 +756,7 @@ pub fn gen_strategy(r: &mut Rng, u: &Value, kind: StratKind) -> Strategy {
                 strs.push("$.nonexistent[3].x".into());
                 if let Some(p) = paths.iter().find(|p| p.len() == 1) {
                     let base = render_path(p, r);
-                    strs.push(format!("{base}[99]"));
+                    strs.push(format!("{base}[99999]"));
                     strs.push(format!("{base}.zz.yy"));
                     strs.push(format!("{base}\u{7f}no-such-suffix"));
                 }
